@@ -2,4 +2,4 @@ From Coq Require Import ExtrOcamlBasic.
 From MT Require Import Time.TimeModel.
 Extraction Language OCaml.
 Separate Extraction ts_add ts_gt nanosleep usleep sleep timedlock timedjoin clk_of att_of
-  timed nanosleep_ev timed_ev ETIMEDOUT EBUSY.
+  timed nanosleep_ev timed_ev ETIMEDOUT EBUSY nanosleep_mem.
